@@ -15,7 +15,7 @@ wait_for_result).
 Scripts that do not finish (10 s / 1 GiB watchdog in a sub-process, confirmed by a second run) are
 Terminates violations.
 """
-import json, os, re
+import bisect, json, os, re
 import vlib
 
 SIGNALS = ["logs", "traces", "metrics", "profiles"]
@@ -245,6 +245,10 @@ def run_and_validate(c, binp, scripts, label):
 def report(c, scripts, results, viol, ctxd, trace_path):
     by_sid = {s["sid"]: s for s in scripts}
     lines = open(trace_path).read().splitlines() if viol else []
+    resets = [i for i, x in enumerate(lines) if x.startswith('{"ev":"reset"')]
+
+    def script_start(line):            # index of the reset line of the script that line (1-based) belongs to
+        return resets[bisect.bisect_right(resets, line - 1) - 1]
     seen = {}
     for sid, vs in sorted(viol.items()):
         s = by_sid[sid]
@@ -281,8 +285,7 @@ def report(c, scripts, results, viol, ctxd, trace_path):
             elif cl == "DoneErrIff":
                 what = head + ": " + json.dumps(v["detail"])[:300]
                 r, err = v["detail"][0], v["detail"][1]
-                start = max(i for i in range(v["line"]) if '"ev":"reset"' in lines[i])
-                evs = [json.loads(x) for x in lines[start:v["line"]]]
+                evs = [json.loads(x) for x in lines[script_start(v["line"]):v["line"]]]
                 if err and not v["detail"][2] and rider_shape(evs, len(evs) - 1, r):
                     sig = KNOWN_ATTACH
                     what += " (the failed part before its first part carried its callback without any of its data)"
@@ -292,8 +295,8 @@ def report(c, scripts, results, viol, ctxd, trace_path):
             if seen[key] > 2 or len(c.violations) >= 16:
                 if sig is None or c.match_finding(sig) is None:
                     continue
-            start = max(i for i in range(v["line"]) if '"ev":"reset"' in lines[i])
-            c.violation(what, replay_obj=dict(script=s, clause=cl, line=v["line"], observed=lines[start:v["line"]][-200:]), signature=sig)
+            c.violation(what, replay_obj=dict(script=s, clause=cl, line=v["line"],
+                                              observed=lines[script_start(v["line"]):v["line"]][-200:]), signature=sig)
 
 
 def run(c):
